@@ -3,7 +3,10 @@ package main
 import (
 	"bytes"
 	"errors"
+	"fmt"
 	"io"
+	"math"
+	"math/big"
 	"net"
 	"strconv"
 	"strings"
@@ -11,6 +14,7 @@ import (
 	"time"
 
 	"github.com/grafana/carbon-relay-ng/input"
+	ogorek "github.com/kisielk/og-rek"
 )
 
 // input framing (C12, C13): the real handlers behind a reader that delivers the stream in prescribed chunks
@@ -231,6 +235,55 @@ func init() {
 			}
 			d.mu.Unlock()
 			emit("end")
+		})
+	}
+}
+
+// og-rek's view of one frame body (C13): `ogrek <bodyhex>` -> dump | "eof" (io.ErrUnexpectedEOF) | "err"
+func dumpPy(v interface{}) string {
+	switch x := v.(type) {
+	case string:
+		return "s" + hexOrDash([]byte(x))
+	case int64:
+		return "i" + strconv.FormatInt(x, 10)
+	case int:
+		return "i" + strconv.Itoa(x)
+	case uint8, uint16, uint32, uint64, int8, int16, int32:
+		return "i" + fmt.Sprintf("%d", x)
+	case *big.Int:
+		return "b" + x.String()
+	case float64:
+		return "f" + strconv.FormatUint(math.Float64bits(x), 10)
+	case float32:
+		return "f" + strconv.FormatUint(math.Float64bits(float64(x)), 10)
+	case ogorek.Tuple:
+		var ps []string
+		for _, e := range x {
+			ps = append(ps, dumpPy(e))
+		}
+		return "T(" + strings.Join(ps, ",") + ")"
+	case []interface{}:
+		var ps []string
+		for _, e := range x {
+			ps = append(ps, dumpPy(e))
+		}
+		return "L(" + strings.Join(ps, ",") + ")"
+	}
+	return "o"
+}
+
+func init() {
+	subs["ogrek"] = func(args []string) {
+		scanLines(func(f []string, raw string) {
+			body := unhexArg(f[0])
+			v, err := ogorek.NewDecoder(bytes.NewBuffer(body)).Decode()
+			if err == io.ErrUnexpectedEOF {
+				emit("eof")
+			} else if err != nil {
+				emit("err")
+			} else {
+				emit("%s", dumpPy(v))
+			}
 		})
 	}
 }
